@@ -450,6 +450,33 @@ fn section_scores(out: &mut Out) {
                         if u != s2 || c != cand {
                             out.bad(format!("near_eq unchecked twins disagree: {} {} vs {} {}", u, c, s2, cand));
                         }
+                        if !tg.is_equiv(&b) {
+                            let u2 = unsafe { tg.compare_unequal_near_eq_unchecked(&b) };
+                            if u2 != tg.compare_unequal_near_eq(&b) || u2 != s2 {
+                                out.bad(format!("compare_unequal_near_eq unchecked twin disagrees: {} vs {}", u2, s2));
+                            }
+                        }
+                    }
+                    if la + 1 == lb {
+                        let u = unsafe { tg.compare_unequal_near_lt_unchecked(&b) };
+                        let c = unsafe { tg.is_comparison_candidate_near_lt_unchecked(&b) };
+                        if u != tg.compare_unequal_near_lt(&b) || u != s2 || c != tg.is_comparison_candidate_near_lt(&b) || c != cand {
+                            out.bad(format!("near_lt unchecked twins disagree: {} {} vs {} {}", u, c, s2, cand));
+                        }
+                    }
+                    if la == lb + 1 {
+                        let u = unsafe { tg.compare_unequal_near_gt_unchecked(&b) };
+                        let c = unsafe { tg.is_comparison_candidate_near_gt_unchecked(&b) };
+                        if u != tg.compare_unequal_near_gt(&b) || u != s2 || c != tg.is_comparison_candidate_near_gt(&b) || c != cand {
+                            out.bad(format!("near_gt unchecked twins disagree: {} {} vs {} {}", u, c, s2, cand));
+                        }
+                    }
+                    for n in 0..4u8 {
+                        let cc = FuzzyHashCompareTarget::score_cap_on_block_hash_comparison(n, t.0.len() as u8, t.2.len() as u8);
+                        let cu = unsafe { FuzzyHashCompareTarget::score_cap_on_block_hash_comparison_unchecked(n, t.0.len() as u8, t.2.len() as u8) };
+                        if cc != cu {
+                            out.bad(format!("score cap unchecked twin disagrees at n={}: {} vs {}", n, cu, cc));
+                        }
                     }
                 }
                 // the checked position-array entry points at the effective block sizes (31 for block hash 2 of
@@ -519,6 +546,14 @@ fn section_scores(out: &mut Out) {
             let u2 = unsafe { LongRawFuzzyHash::new_from_internals_unchecked(3u32 << log, &a, &b) };
             let d = LongDualFuzzyHash::new_from_internals_near_raw(log, &a, &b);
             let du = unsafe { LongDualFuzzyHash::new_from_internals_near_raw_unchecked(log, &a, &b) };
+            // the array forms
+            let u3 = unsafe { LongRawFuzzyHash::new_from_internals_raw_unchecked(log, c.block_hash_1_as_array(), c.block_hash_2_as_array(), c.block_hash_1_len() as u8, c.block_hash_2_len() as u8) };
+            let mut u4 = LongRawFuzzyHash::new_from_internals_near_raw(30, &[63; 64], &[63; 64]);
+            unsafe { u4.init_from_internals_raw_unchecked(log, c.block_hash_1_as_array(), c.block_hash_2_as_array(), c.block_hash_1_len() as u8, c.block_hash_2_len() as u8) };
+            let c3 = LongRawFuzzyHash::new_from_internals_raw(log, c.block_hash_1_as_array(), c.block_hash_2_as_array(), c.block_hash_1_len() as u8, c.block_hash_2_len() as u8);
+            if !c.full_eq(&u3) || !c.full_eq(&u4) || !c.full_eq(&c3) {
+                out.bad(format!("unchecked array constructors disagree for {}", c));
+            }
             if !c.full_eq(&u) || !c.full_eq(&u2) || d != du {
                 out.bad(format!("unchecked constructors disagree for {}", c));
             }
